@@ -122,6 +122,10 @@ class ExprOps:
             return self.call_method(sv, '__repr__', [], {}, node)
         if sv.kind == 'val':
             return self.to_repr(self.narrow(sv), node)
+        if sv.kind == 'str':
+            self.st.decls.fun('py_repr', ['String'], 'String')
+            self.lib_assumptions.add('repr(str) is an uninterpreted function (its escaping is the subject of C17)')
+            return self.mk_str("(py_repr %s)" % sv.term)
         raise Unsupported('repr() of %s' % sv.kind, node)
 
     def ev_IfExp(self, node):
@@ -138,6 +142,15 @@ class ExprOps:
             if a.kind in ('str', 'int', 'bool', 'none', 'ref', 'val') and b.kind in ('str', 'int', 'bool', 'none', 'ref', 'val'):
                 ty = frozenset(a.ty | b.ty)
                 return SV('val', mk_ite(c, self.box(a), self.box(b)), ty)
+        # speculative evaluation of both arms: merge by ite when neither needs obligations, case splits or effects
+        ok_a, a = self.speculate(node.body, rt)
+        if ok_a:
+            ok_b, b = self.speculate(node.orelse, rf)
+            if ok_b:
+                try:
+                    return self.merge_ite(c, a, b)
+                except Unsupported:
+                    pass
         d = st.decide(2, 'ifexp@%d' % node.lineno)
         if d == 0:
             st.assume(c)
@@ -146,6 +159,32 @@ class ExprOps:
         st.assume(mk_not(c))
         self.apply_refine(rf)
         return self.ev(node.orelse)
+
+    def speculate(self, node, refine):
+        st = self.st
+        snap = (len(st.pc), len(st.obligations), st.ver, st.dpos, len(st.decisions), len(st.dlog), len(st.trace),
+                dict(st.heap), dict(st.heapver), st.seqh, st.ddom, st.dval, st.alloc, dict(st.ghost), dict(st.env))
+        ok = True
+        val = None
+        try:
+            self.apply_refine(refine)
+            val = self.ev(node)
+        except (Unsupported, PathInfeasible, Exception):
+            ok = False
+        if ok and (len(st.obligations) != snap[1] or st.ver != snap[2] or st.dpos != snap[3]
+                   or any(k not in ('wf', 'def', 'lib') for _, k in st.pc[snap[0]:])
+                   or st.alloc != snap[12] or val.kind in ('list', 'dict', 'func', 'global')):
+            ok = False
+        st.env = snap[14]
+        if not ok:
+            del st.pc[snap[0]:]
+            del st.obligations[snap[1]:]
+            st.ver, st.dpos = snap[2], snap[3]
+            del st.decisions[snap[4]:]
+            del st.dlog[snap[5]:]
+            del st.trace[snap[6]:]
+            st.heap, st.heapver, st.seqh, st.ddom, st.dval, st.alloc, st.ghost = snap[7], snap[8], snap[9], snap[10], snap[11], snap[12], snap[13]
+        return ok, val
 
     def ev_BoolOp(self, node):
         # value semantics with short circuit
@@ -609,10 +648,17 @@ class ExprOps:
                 n = self.find_init_assign(c, attr)
             vals.append(n)
         if vals and all(v is not None for v in vals) and self.stores_of_attr(attr) == 0:
+            saved_mute = self.st.mute
+            self.st.mute = True
+            nob, npc = len(self.st.obligations), len(self.st.pc)
             try:
                 svs = [self.const_eval(v) for v in vals]
-            except (Unsupported, PathInfeasible):
+            except Exception:
                 svs = []
+            finally:
+                self.st.mute = saved_mute
+                del self.st.obligations[nob:]
+                del self.st.pc[npc:]
             def okc(s):
                 if s.kind in ('global', 'func', 'exc', 'super'):
                     return False
